@@ -89,6 +89,12 @@ func c04Init() {
 
 // c04Issue mints a token the way /connect does: EnrichContext, then GeneratePAAToken with the request context.
 func c04Issue(f addrForm, host string) (tok string, seenIP string) {
+	tok, seenIP, _ = c04IssueCookie(f, host)
+	return
+}
+
+// c04IssueCookie also persists the identity in the session, as the login callback does, and returns the session cookie.
+func c04IssueCookie(f addrForm, host string) (tok string, seenIP string, cookie string) {
 	r := httptest.NewRequest("GET", "https://gw.example/connect", nil)
 	r.RemoteAddr = f.Peer
 	for k, v := range c04Header(f) {
@@ -100,8 +106,16 @@ func c04Issue(f addrForm, host string) (tok string, seenIP string) {
 		id.SetAttribute(identity.AttrAccessToken, "at-alice")
 		seenIP, _ = id.GetAttribute(identity.AttrClientIp).(string)
 		tok, _ = security.GeneratePAAToken(r.Context(), "alice", host)
+		id.SetAuthenticated(true)
+		web.SaveSessionIdentity(r, w, id)
 	}))
-	h.ServeHTTP(httptest.NewRecorder(), r)
+	rec := httptest.NewRecorder()
+	h.ServeHTTP(rec, r)
+	for _, c := range rec.Result().Cookies() {
+		if c.Name == "RDPGWSESSION" {
+			cookie = c.Value
+		}
+	}
 	return
 }
 
@@ -114,6 +128,10 @@ type c04Obs struct {
 }
 
 func c04Use(kind string, tok string, f addrForm, verify bool, rep *Report) c04Obs {
+	return c04UseCookie(kind, tok, f, verify, "", rep)
+}
+
+func c04UseCookie(kind string, tok string, f addrForm, verify bool, cookie string, rep *Report) c04Obs {
 	var o c04Obs
 	x := vsched.Run(nil, 20000, false, nil, func() {
 		w := NewWorld()
@@ -123,7 +141,11 @@ func c04Use(kind string, tok string, f addrForm, verify bool, rep *Report) c04Ob
 		var c *TunnelClient
 		ok := false
 		if kind == "ws" {
-			c, ok = w.OpenTunnel("ws", h, gw, "conn-1", f.Peer, nil, c04Header(f))
+			hd := c04Header(f)
+			if cookie != "" {
+				hd.Set("Cookie", "RDPGWSESSION="+cookie)
+			}
+			c, ok = w.OpenTunnel("ws", h, gw, "conn-1", f.Peer, nil, hd)
 		} else {
 			// legacy: OUT comes from a third address, IN from the presenting one
 			c, ok = c04OpenLegacy(w, h, f)
@@ -196,24 +218,28 @@ func parseLoose(s string) net.IP {
 func c04(env *Env, rep *Report) {
 	c04Init()
 	forms := c04Forms()
-	rep.Rule = fmt.Sprintf("all %d x %d pairs of issuing and presenting client address forms (TCP peer only; X-Forwarded-For with 1, 2, 3, 5 elements, blanks, empty header, two header lines in both orders, element equal to / different from the proxy's peer; IPv4, IPv6 and textual variants) x verification switch {on, off} x transport {websocket, legacy with the OUT request from a third address}. "+
+	rep.Rule = fmt.Sprintf("all %d x %d pairs of issuing and presenting client address forms (TCP peer only; X-Forwarded-For with 1, 2, 3, 5 elements, blanks, empty header, two header lines in both orders, element equal to / different from the proxy's peer; IPv4, IPv6 and textual variants) x verification switch {on, off} x transport {websocket, legacy with the OUT request from a third address}; the websocket cases are repeated with the login's session cookie on the tunnel request (the restored identity must not override the presenting address). "+
 		"Issuance runs the real web.EnrichContext + security.GeneratePAAToken; use runs web.EnrichContext + HandleGatewayProtocol with the real CheckPAACookie / CheckSession(CheckHost) as main.go wires them. Oracle: reference client address = first X-Forwarded-For element of the first header line (trimmed) if non-empty else the peer's host; the token's clientIp claim and the address the handler saw must equal it; switch on: equal => channel created and host dialled, different IP => access-denied status and zero dials; switch off: always created; two spellings of one IP or an empty address: unspecified. distinct_nontrivial = distinct cases.", len(forms), len(forms))
 	rep.Assumptions = append(rep.Assumptions, "identity provider honours the access token; host policy allows the requested host (C03 covers it)")
 	type cse struct {
 		i, p   int
 		verify bool
 		kind   string
+		cookie bool // the presenting request carries the session cookie of the login
 	}
 	run := func(c cse) (string, string) {
 		fi, fp := forms[c.i], forms[c.p]
-		tok, seen := c04Issue(fi, hostA+":3389")
+		tok, seen, ck := c04IssueCookie(fi, hostA+":3389")
+		if !c.cookie {
+			ck = ""
+		}
 		if tok == "" {
 			return "issuance-failed", fi.Name
 		}
 		if want := refClientIP(fi); seen != want {
 			return "client-address-at-issuance-differs-from-reference", fmt.Sprintf("%s: handler saw %q, reference %q", fi.Name, seen, want)
 		}
-		o := c04Use(c.kind, tok, fp, c.verify, rep)
+		o := c04UseCookie(c.kind, tok, fp, c.verify, ck, rep)
 		if len(o.panics) > 0 {
 			return "panic", o.panics[0]
 		}
@@ -247,10 +273,15 @@ func c04(env *Env, rep *Report) {
 		g := func(k string) int { f, _ := env.Replay[k].(float64); return int(f) }
 		vb, _ := env.Replay["verify"].(bool)
 		kind, _ := env.Replay["kind"].(string)
-		v, d := run(cse{g("issue"), g("present"), vb, kind})
+		ckb, _ := env.Replay["cookie"].(bool)
+		v, d := run(cse{g("issue"), g("present"), vb, kind, ckb})
 		fmt.Println("verdict:", v, d)
 		if v != "" {
-			rep.violate("C04/"+v+"/"+kind, d, env.Replay)
+			sig := "C04/" + v + "/" + kind
+			if ckb {
+				sig += "/with-session-cookie"
+			}
+			rep.violate(sig, d, env.Replay)
 		}
 		return
 	}
@@ -264,10 +295,20 @@ func c04(env *Env, rep *Report) {
 						continue
 					}
 					distinct++
-					v, d := run(cse{i, p, verify, kind})
+					v, d := run(cse{i, p, verify, kind, false})
 					rep.outcome(fmt.Sprintf("%s verify=%v same=%v verdict=%s", kind, verify, refClientIP(forms[i]) == refClientIP(forms[p]), v))
 					if v != "" {
 						rep.violate("C04/"+v+"/"+kind, d, map[string]any{"engine": "enum", "issue": i, "present": p, "verify": verify, "kind": kind})
+					}
+					if kind == "ws" && verify {
+						// the same pair with the login's session cookie on the tunnel request
+						n++
+						distinct++
+						v, d := run(cse{i, p, verify, kind, true})
+						rep.outcome(fmt.Sprintf("%s with-session-cookie same=%v verdict=%s", kind, refClientIP(forms[i]) == refClientIP(forms[p]), v))
+						if v != "" {
+							rep.violate("C04/"+v+"/"+kind+"/with-session-cookie", d, map[string]any{"engine": "enum", "issue": i, "present": p, "verify": verify, "kind": kind, "cookie": true})
+						}
 					}
 					if distinct%500 == 1 {
 						rep.sample(map[string]any{"issued_to": forms[i].Name, "presented_from": forms[p].Name, "verify": verify, "transport": kind, "verdict": v})
